@@ -107,3 +107,25 @@ Theorem C06_reply_once : forall n ok err, In (n, ok, err) requests ->
      (ups a, downs a, raises a) = (match err with Some e => [e] | None => [] end, [], 0)).
 Proof. exact reply_once_thm. Qed.
 Print Assumptions C06_reply_once.
+
+(* ... and the pending request survives whatever else arrives before its reply: any list of received
+   stanzas none of which is a result / error iq with the request's id -- a server ping (type get) that
+   happens to carry that id, replies for other ids, messages, receipts -- leaves the entry alone, so the
+   reply still produces exactly the one entity *)
+Theorem C06_reply_once_after_traffic : forall n ok err, In (n, ok, err) requests ->
+  exists k, find_kind n = Some k /\ forall c, supported c k = true ->
+    forall ax d i x fr to p ch fs, fd_id d = Some i -> plain_reply (request_layer k) x ch ->
+    forallb (fun f => negb (is_reply_for i f)) fs = true ->
+    let st := fold_left (st_after_recv c ax) fs (apply_registers [] (par_send repaired c (feat_of k d))) in
+    (let a := par_recv repaired c st (reply_feat x (Some "result") i fr to p ch) in
+     (ups a, downs a, raises a) = ([ok], [], 0)) /\
+    (let a := par_recv repaired c st (reply_feat x (Some "error") i fr to p ch) in
+     (ups a, downs a, raises a) = (match err with Some e => [e] | None => [] end, [], 0)).
+Proof. exact reply_once_after_traffic_thm. Qed.
+Print Assumptions C06_reply_once_after_traffic.
+
+(* a registry that forgets the entry on ANY iq with the id (pop first, test the type afterwards) is refuted *)
+Theorem C06_popfirst_refuted : exists ls l i ok err f, is_reply_for i f = false /\
+  consume_popfirst [(l, i, ok, err)] ls f = [] /\ consume [(l, i, ok, err)] ls f = [(l, i, ok, err)].
+Proof. exact popfirst_refuted. Qed.
+Print Assumptions C06_popfirst_refuted.
